@@ -225,3 +225,35 @@ class SideTyper:
             if isinstance(r, ast.Return) and isinstance(r.value, (ast.Tuple, ast.List)):
                 out.append({i: self.expr_side(e) for i, e in enumerate(r.value.elts)})
         return out
+
+
+def same_term(source: Source, module: str, cls: Optional[str], actual: ast.AST, expected_src: str) -> Optional[bool]:
+    """Compare an expression of the source with an expected expression (given as python text) at term level:
+    insensitive to float()/np.array wrappers, operand order, spacing, parentheses.  None = cannot tell."""
+    ex = Extractor(source)
+    env = {"__module__": module, "__class__": cls}
+    try:
+        a = ex.expr(actual, env)
+        b = ex.expr(ast.parse(expected_src, mode="eval").body, dict(env))
+    except AnalysisErrorT:
+        return None
+    if isinstance(a, sp.Basic) and isinstance(b, sp.Basic):
+        if a == b:
+            return True
+        try:
+            if a.is_Relational or b.is_Relational or a.is_Boolean or b.is_Boolean:
+                return False
+        except Exception:
+            pass
+        from .terms import is_zero as _iz
+        try:
+            r, _ = _iz(a - b)
+        except Exception:
+            return str(a) == str(b)
+        return r
+    if isinstance(a, (list, tuple)) and isinstance(b, (list, tuple)) and len(a) == len(b):
+        return all(x == y for x, y in zip(a, b))
+    return a == b
+
+
+from .core import AnalysisError as AnalysisErrorT  # noqa: E402
